@@ -222,6 +222,6 @@ end
 def parse (s : String) : Option Ty :=
   match lex s with
   | none => none
-  | some ts => (parseTy (2 * ts.length + 2) ts).map (·.1)
+  | some ts => (parseTy (12 * ts.length + 2) ts).map (·.1)   -- fuel: enough for every printed type (C15.size_le_toks)
 
 end Ssl.TyText
